@@ -261,7 +261,7 @@ def grammarOk (inp : Input) : Bool :=
   wfLevels inp.src && wfLevels inp.dest && wfSelectors inp.src && wfSelectors inp.dest &&
   !dupFns inp.fns && inp.fns.all (fun f => !f.param.isStructSlice && !f.result.isStructSlice) &&
   wfNewSide inp.src inp.srcNew && wfNewSide inp.dest inp.destNew &&
-  (leavesOf inp.src).all (fun s => (leavesOf inp.dest).all (fun d => subNamesAgree s.decl.ty d.decl.ty)) &&
+  ((plan inp).st.toC ++ (plan inp).st.fromC).all (fun c => !isSubStrat c.strat || subNamesAgree c.rd.ty c.wr.ty || subNamesAgree c.wr.ty c.rd.ty) &&
   (leavesOf inp.dest).all (fun d => match d.decl.tag with | .name _ => false | _ => true)
 
 /-- the generator's pair loop visits every reading field with at most one partner, and vice versa -/
@@ -398,12 +398,7 @@ def F_ptrMapper (inp : Input) : Bool :=
   inp.mapperPtr == some true && ((toGen inp && hasFunc p.toStmts) || (fromGen inp && hasFunc p.fromStmts))
 
 def region09 (inp : Input) : String :=
-  if dupFns inp.fns then "OutDup"
-  else if !inp.fns.all (fun f => !f.param.isStructSlice && !f.result.isStructSlice) then "OutFnSlice"
-  else if !(leavesOf inp.src).all (fun s => (leavesOf inp.dest).all (fun d => subNamesAgree s.decl.ty d.decl.ty)) then "OutSubNames"
-  else if !(leavesOf inp.dest).all (fun d => match d.decl.tag with | .name _ => false | _ => true) then "OutDestTag"
-  else if !grammarOk inp then "OutGrammar"
-  else if !modelCompiles inp then "OutCompile"
+  if !grammarOk inp || inp.srcNew || inp.destNew || !namesOk inp || !modelCompiles inp then "Out"
   else if F_ptrMapper inp then "F_ptrMapper"
   else if WF09 inp then "WF"
   else "F_pathTable"
